@@ -116,6 +116,50 @@ structure Consts where
   errUnknown : Bytes
   ok : Bytes
 
+/-- the error branch of `conn.sread`: the whole request is completed with `e` -/
+def failWith (m : MMsg) (e : Bytes) : MMsg × Signal :=
+  (allDone { m with err := e, fragDone := m.frags.length, rspBody := e, done := true }, .ready)
+
+def bump (m : MMsg) : MMsg := { m with fragDone := m.fragDone + 1 }
+
+/-- `SRespCodec.MGet` (the fragment counter has already been incremented) -/
+def mergeMGet (K : Consts) (slotFn : Bytes → Nat) (limit : Nat) (m1 : MMsg) (slot rtype : Nat) (body : Bytes) :
+    MMsg × Signal :=
+  match parseMGet body with
+  | none => (m1, .panic)
+  | some parsed =>
+    let rsp := parsed.getD []
+    let m2 := setFrag m1 slot (fun x => { x with rsp := rsp, done := true, rtype := rtype })
+    if rsp.length < 1 then failWith (setFrag m2 slot (fun x => { x with err := K.errUnknownMget })) K.errUnknownMget
+    else if m2.fragDone < m2.frags.length then (m2, .waiting)
+    else
+      match assembleMGet slotFn m2 m2.keys ([42] ++ itoa m2.keys.length ++ [13, 10]) with
+      | none => (m2, .panic)
+      | some rb =>
+        if rb.length > limit then ({ m2 with done := true, err := K.errTooLargeRsp, rspBody := K.errTooLargeRsp }, .ready)
+        else ({ m2 with done := true, rspBody := rb }, .ready)
+
+/-- `SRespCodec.MSet` -/
+def mergeMSet (T : Tables) (K : Consts) (m1 : MMsg) (slot rtype : Nat) : MMsg × Signal :=
+  let m2 := setFrag m1 slot (fun x => { x with ok := (rtype = T.rOk), done := true, rtype := rtype })
+  if m2.fragDone < m2.frags.length then (m2, .waiting)
+  else if m2.frags.all (·.ok) then ({ m2 with done := true, rspBody := K.ok }, .ready)
+  else ({ m2 with done := true, rspBody := K.errUnknown }, .ready)
+
+/-- `SRespCodec.Del` -/
+def mergeDel (m1 : MMsg) (slot rtype : Nat) (body : Bytes) : MMsg × Signal :=
+  let n : Int := match parseLen ((body.drop 1).take (body.length - 3)) with
+    | .ok n => n
+    | .error _ => -1
+  let m2 := setFrag { m1 with delNum := m1.delNum + n } slot (fun x => { x with done := true, rtype := rtype })
+  if m2.fragDone < m2.frags.length then (m2, .waiting)
+  else ({ m2 with done := true, rspBody := [58] ++ itoaInt m2.delNum ++ [13, 10] }, .ready)
+
+/-- `SRespCodec.Default` -/
+def mergeDefault (m1 : MMsg) (slot rtype : Nat) (body : Bytes) : MMsg × Signal :=
+  let m2 := setFrag m1 slot (fun x => { x with done := true, rtype := rtype })
+  ({ m2 with done := true, rspBody := body }, .ready)
+
 /-- `conn.sread` once `SRespCodec.Decode` has framed a reply of type `rtype` with bytes `body`
     for the fragment of `slot` -/
 def onReply (T : Tables) (K : Consts) (slotFn : Bytes → Nat) (limit : Nat)
@@ -126,42 +170,13 @@ def onReply (T : Tables) (K : Consts) (slotFn : Bytes → Nat) (limit : Nat)
     if f.done then (m, .dropped)
     else if rtype = T.rMoved ∨ rtype = T.rAsk then (setFrag m slot (fun x => { x with rtype := rtype }), .redirect)
     else
-      let tooLarge := body.length > limit
-      let e0 : Bytes := if tooLarge then K.errTooLargeRsp else f.err
-      let m1 := { m with fragDone := m.fragDone + 1 }
+      let e0 : Bytes := if body.length > limit then K.errTooLargeRsp else f.err
       let isSplit := m.type = T.cMget ∨ m.type = T.cMset ∨ m.type = T.cDel
       let e1 : Bytes := if e0 = [] ∧ rtype = T.rError ∧ isSplit then body else e0
-      let fail (m : MMsg) (e : Bytes) : MMsg × Signal :=
-        (allDone { m with err := e, fragDone := m.frags.length, rspBody := e, done := true }, .ready)
-      if e1 ≠ [] then fail (setFrag m1 slot (fun x => { x with err := e1, rtype := rtype })) e1
-      else if m.type = T.cMget then
-        match parseMGet body with
-        | none => (m1, .panic)
-        | some parsed =>
-          let rsp := parsed.getD []
-          let m2 := setFrag m1 slot (fun x => { x with rsp := rsp, done := true, rtype := rtype })
-          if rsp.length < 1 then fail (setFrag m2 slot (fun x => { x with err := K.errUnknownMget })) K.errUnknownMget
-          else if m2.fragDone < m2.frags.length then (m2, .waiting)
-          else
-            match assembleMGet slotFn m2 m2.keys ([42] ++ itoa m2.keys.length ++ [13, 10]) with
-            | none => (m2, .panic)
-            | some rb =>
-              if rb.length > limit then ({ m2 with done := true, err := K.errTooLargeRsp, rspBody := K.errTooLargeRsp }, .ready)
-              else ({ m2 with done := true, rspBody := rb }, .ready)
-      else if m.type = T.cMset then
-        let m2 := setFrag m1 slot (fun x => { x with ok := (rtype = T.rOk), done := true, rtype := rtype })
-        if m2.fragDone < m2.frags.length then (m2, .waiting)
-        else if m2.frags.all (·.ok) then ({ m2 with done := true, rspBody := K.ok }, .ready)
-        else ({ m2 with done := true, rspBody := K.errUnknown }, .ready)
-      else if m.type = T.cDel then
-        let n : Int := match parseLen ((body.drop 1).take (body.length - 3)) with
-          | .ok n => n
-          | .error _ => -1
-        let m2 := setFrag { m1 with delNum := m1.delNum + n } slot (fun x => { x with done := true, rtype := rtype })
-        if m2.fragDone < m2.frags.length then (m2, .waiting)
-        else ({ m2 with done := true, rspBody := [58] ++ itoaInt m2.delNum ++ [13, 10] }, .ready)
-      else
-        let m2 := setFrag m1 slot (fun x => { x with done := true, rtype := rtype })
-        ({ m2 with done := true, rspBody := body }, .ready)
+      if e1 ≠ [] then failWith (setFrag (bump m) slot (fun x => { x with err := e1, rtype := rtype })) e1
+      else if m.type = T.cMget then mergeMGet K slotFn limit (bump m) slot rtype body
+      else if m.type = T.cMset then mergeMSet T K (bump m) slot rtype
+      else if m.type = T.cDel then mergeDel (bump m) slot rtype body
+      else mergeDefault (bump m) slot rtype body
 
 end RcVerif.Merge
